@@ -77,7 +77,7 @@ def classify(lines, observed):
             if m and not m.group(1).isascii():
                 return 'list-marker-non-ascii-digit'
     if any(len(ln) - len(ln.lstrip(' ')) >= 4 and SI.RE_TABLE_DELIM.match(ln.lstrip(' '))
-           for ln in lines[1:]) and ('pre' in tags or 'table' in tags):
+           for ln in lines[1:]):
         return 'table-lookahead-accepts-delimiter-row-indented-4+'
     if 'li' in tags:
         return 'other-list'
